@@ -445,6 +445,7 @@ def one_run(spec, rng, res, model, gitdir, d, sel, roots):
             oid, desc = w
             wit[wkey] = (oid, desc.encode("utf-8") if desc is not None else None)
     wf = []
+    ntw = 0
     # JSON cannot carry non-UTF-8 bytes: skip description resolution for replaced names
     wit_j = {k: (o, (dsc if dsc is None or "�".encode() not in dsc else None)) for k, (o, dsc) in wit.items()}
     judge_witnesses(ex, gitdir, wit_j, wf, names)
@@ -463,6 +464,9 @@ def one_run(spec, rng, res, model, gitdir, d, sel, roots):
                 add("tableparse", ("table-unparsable", "", dict(ctx, argv=argv2, errors=tab.errors[:3])))
             else:
                 tw = table_witnesses(tab)
+                ntw = len(tw)
+                if len(tw) != len(wit):
+                    add("witness", ("table-and-json-cite-different-metrics", "", dict(ctx, table=sorted(tw), json=sorted(wit))))
                 judge_witnesses(ex, gitdir, tw, wf, names, note="table")
     for kind, wkey, det in wf:
         add("witness", (kind, wkey, dict(ctx, **det)))
@@ -474,7 +478,7 @@ def one_run(spec, rng, res, model, gitdir, d, sel, roots):
         "tags": ex.true["unique_tag_count"], "depth": ex.true["max_history_depth"],
         "tagdepth": ex.true["max_tag_depth"], "witnesses_cited": len(wit),
         "described": sum(1 for _, dsc in wit.values() if dsc is not None),
-        "permuted": plan is not None,
+        "permuted": plan is not None, "table_witnesses": ntw,
     }
     res["nontrivial"].append(nt)
     if len(res["samples"]) < 1:
